@@ -149,14 +149,17 @@ def c15(rep, tier, seed):
     suite_heap.gen(rep, tier, "alias", cl)
     suite_heap.gen(rep, tier, "tables", cl)
     suite_heap.trace(rep, tier, seed, cl)
+    # multi-column table assignment while an UNADDRESSED column shares its storage must not be refused
+    suite_table.gen(rep, tier, ["tassign"], ("spurious_refusal",))
 
 
 def c16(rep, tier, seed):
     rep.assumptions += HEAP_ASSUME + ["hash collisions of the 61-bit fingerprint are excluded by the small value palette"]
     cl = ("fp_value", "outcome", "fp_order")
     suite_vec.enumerated(rep, "fplaws", cl)
-    suite_heap.mc(rep, tier, ["alias", "tables"])
+    suite_heap.mc(rep, tier, ["alias", "tables", "fp"])
     suite_heap.devs(rep, ["VecFpNotInvalidated", "TableFpMemo"])
+    suite_heap.gen(rep, tier, "fp", cl)           # deep interleavings of fingerprint() reads with writes (paths of 6-8 calls)
     suite_heap.gen(rep, tier, "alias", cl)
     suite_heap.gen(rep, tier, "tables", cl)
     suite_heap.trace(rep, tier, seed, cl)
